@@ -24,6 +24,8 @@ def run(prog, chk):
     X.check_readers(prog, chk)
     X.text_bypass(prog, chk)
     C02.root_synthesis(prog, chk)
+    from props import geomalg
+    geomalg.check_sites(prog, chk, "C05")  # the generated root satisfies the real-SVG predicate: xmlns literal, per presence case (A17 site root-extent)
     C03.bypass(prog, chk)
     C03.stable_sort(prog, chk)
     C03.real_svg_scan(prog, chk)
